@@ -3,11 +3,16 @@
 Rule-based machine over one engine per backend.  The model is refsim applied to the concatenation of every segment executed
 since the last reset (post-selected measurements fix all outcomes, so feed-forward values are known to the model).
 
-  compositional   run([p1, p2]) == run(p1); run(p2) == one concatenated program == refsim of the concatenation
-  reset           after reset() the engine behaves like a fresh one, run_progs is empty
-  untouched       deep snapshot of every user Program before == after compile / run / failed run (ignoring what the docs say
-                  changes: lock, RegRef.val, values bound to free parameters); re-running the same object on a fresh engine
-                  gives the same state; compile() returns a different Program object
+  compositional   run([p1, p2]) == run((p1, p2)) == run(p1); run(p2) == one concatenated program == refsim of the concatenation,
+                  whether follow-up programs are built as Program(predecessor) or as fresh Program(n), whatever run options
+                  (modes=[..] / [] / shots) the individual calls were given, with a new value of the free parameter per call;
+                  the same Program object may be submitted again to the same engine (next call, or twice in one list); a call
+                  the engine refuses before executing anything changes nothing
+  reset           after reset() the engine behaves like a fresh one (also for a Program object that was run before the reset, and
+                  with new backend options), run_progs is empty, the programs run before hold no measured values
+  untouched       deep snapshot of every user Program before == after compile / run / failed run / refused run (ignoring what the
+                  docs say changes: lock, RegRef.val, values bound to free parameters); re-running the same object on a fresh
+                  engine gives the same state; compile() returns a different Program object
 """
 from __future__ import annotations
 
@@ -19,35 +24,121 @@ from vf import gen, refsim, sfrun, spec
 from vf.core import Sub, Violation
 
 RULE = ("histories of <= 12 engine calls {add segment (1..4 Gaussian commands incl. decomposable gates, .H, post-selected homodyne, "
-        "feed-forward of a measured value, free parameter), run pending segments as one list / successively / concatenated, reset, "
-        "compile, re-run same object on a fresh engine, failing run} on gaussian, fock and bosonic engines; non-trivial = >= 2 "
-        "segments each with a non-identity command were composed, or the same Program object was run twice")
+        "feed-forward of a measured value / free parameter in first or later parameter positions of plain, daggered and decomposable "
+        "gates), run pending segments as one list / tuple / successively / concatenated with follow-up programs built from the "
+        "predecessor or as fresh Program(n), with run options (modes, shots) and a new value of the free parameter per call, run the "
+        "same Program object again on the same engine (next call / twice in one list / after reset), reset (optionally with backend "
+        "options), compile, re-run same object on a fresh engine, failing run, refused run followed by a valid one} on gaussian, fock "
+        "and bosonic engines; non-trivial = >= 2 segments each with a non-identity command were composed, or the same Program object "
+        "was run twice")
 ASSUMPTIONS = [
     "states compared with refsim at 1e-6 (post-selected homodyne: finite-squeezing POVM of the phase-space backends); fock (cutoff 9, low "
     "energy) at 5e-3 on first and second moments",
     "bosonic engine: every Program restarts the simulator (finding F10, open): a bosonic state that equals the LAST Program run alone "
-    "from vacuum is attributed to F10, any other deviation is a violation",
+    "from vacuum is attributed to F10 (also: the last Programs run from vacuum when the very last ones were optimised to empty circuits, "
+    "which restart nothing), any other deviation is a violation",
     "snapshots ignore Program.locked, RegRef.val and the values bound to free parameters (documented effects of running)",
     "numpy's global RNG is seeded identically before both sides of every comparison",
     "Engine.reset() is only called on engines that have run at least one program (on a never-used local engine it raises AttributeError: "
     "the backend has no circuit yet; the documentation only describes reset after a run)",
+    "a run that the engine refuses before executing anything (register mismatch -> RuntimeError, post-selection with shots > 1 -> "
+    "NotImplementedError) is not appended to Engine.run_progs; the state afterwards must be that of the programs that were run",
+    "Engine.reset docstring: 'All registers of previously run Programs are cleared of measured values' and 'backend_options: keyword "
+    "arguments for the backend, updating (overriding) old values' (checked with cutoff_dim of the fock engine: 9 -> 10)",
+    "run option modes=[..] (ascending) returns the reduced state of those modes, modes=[] returns no state (LocalEngine.run docstring); "
+    "neither changes the computation that later calls continue",
+    "programs that use a measured parameter are not submitted a second time (open finding F7: measured-parameter symbols are shared "
+    "by name between live programs)",
 ]
 REQUIRED_LABELS = {"all": ["backend:gaussian", "backend:fock", "backend:bosonic", "list_vs_successive", "reset_then_run", "feedforward_across_segments",
-                           "dagger_decomposed", "rerun_same_object", "compile_untouched"]}
+                           "dagger_decomposed", "rerun_same_object", "compile_untouched",
+                           # input classes added by the generator audit (each some hundred times per quick run at seeds 1..5)
+                           "fresh_program_follows", "repeat_next_call", "repeat_in_one_list", "old_object_after_reset", "tuple_of_programs",
+                           "run_option_modes", "run_option_modes_empty", "run_option_shots", "refused_run", "reset_with_backend_options",
+                           "reset_clears_measured_values", "symbolic_dagger", "symbolic_decomposed", "op:Interferometer"]}
+DECOMPOSED = ("Xgate", "Zgate", "Pgate", "CXgate", "CZgate", "MZgate", "S2gate", "Fouriergate")
 
 ALPH = ["Dgate", "Sgate", "Rgate", "BSgate", "S2gate", "MZgate", "Xgate", "Zgate", "Pgate", "CXgate", "CZgate", "Fouriergate", "LossChannel", "Coherent", "Squeezed"]
+ALPH2 = ["Interferometer", "DisplacedSqueezed", "Thermal", "Vacuum"]
+UNSUPPORTED = {"bosonic": ("Interferometer",)}  # the bosonic compiler rejects it (CircuitError): histories with it run on two engines
 BACKENDS = ["gaussian", "fock", "bosonic"]
 N = 2
 
 
 def selftest():
     refsim.selftest()
+    # the truncation guard on a closed form: coherent state |alpha|^2 = 1, weight above 9 photons = 1 - sum_{n<9} e^-1 / n!
+    ref = refsim.Ref(1, 2.0)
+    ref.apply("Coherent", [1.0, 0.3], [0])
+    exact = 1.0 - float(np.exp(-1.0)) * sum(1.0 / float(np.prod(np.arange(1, n + 1))) for n in range(9))
+    assert abs(tail_weight(ref, 9) - exact) < 1e-12, (tail_weight(ref, 9), exact)
+
+
+def tail_weight(ref, cutoff):
+    """largest per-mode weight of the reference state on Fock levels >= cutoff (thewalrus' recursive single-mode density matrix;
+    same quantity as vf.props.c01.tail_weight, three orders of magnitude faster than summing hafnians)"""
+    from thewalrus.quantum import density_matrix
+
+    worst = 0.0
+    for m in range(ref.n):
+        mu, V = ref.reduced([m])
+        rho = density_matrix(mu, V, cutoff=cutoff, hbar=ref.h, normalize=False)
+        worst = max(worst, 1.0 - float(np.real(np.trace(rho))))
+    return worst
+
+
+# symbolic parameter ASTs of this module: ["free", "a"] | ["absmeas", mode] | ["mul", number, AST]
+def _has(p, tag):
+    if not (isinstance(p, list) and p):
+        return False
+    return p[0] == tag or any(_has(x, tag) for x in p[1:])
+
+
+def seg_has(ops_, tag):
+    return any(_has(p, tag) for o in ops_ for p in o[1])
+
+
+def _flags(o):
+    return o[3] if len(o) > 3 else {}
+
+
+def _eval(p, values, bind):
+    if isinstance(p, list) and p:
+        if p[0] == "free":
+            return bind[p[1]]
+        if p[0] == "absmeas":
+            return abs(values[p[1]])
+        if p[0] == "mul":
+            return p[1] * _eval(p[2], values, bind)
+    return p
+
+
+def ff_variants(ff, tgt):
+    """a gate whose parameter is the measured value: first parameter of a plain / daggered / decomposed-and-daggered gate, or a
+    later parameter (Gate.apply negates the first parameter of a daggered gate, symbolic or not)"""
+    return [["Dgate", [ff, 0.3], [tgt], {}],
+            ["Dgate", [ff, 0.3], [tgt], {"H": True}],
+            ["Zgate", [ff], [tgt], {"H": True}],
+            ["Sgate", [0.2, ff], [tgt], {}],
+            ["BSgate", [ff, 0.2], [tgt, 1 - tgt], {"H": True}],
+            ["Xgate", [ff], [tgt], {}]]
+
+
+def free_variants(m):
+    a = ["free", "a"]
+    return [["Rgate", [a], [m], {}],
+            ["Rgate", [a], [m], {"H": True}],
+            ["BSgate", [0.4, a], [m, 1 - m], {}],
+            ["Zgate", [["mul", 0.6, a]], [m], {"H": True}],
+            ["S2gate", [["mul", 0.3, a], 0.1], [m, 1 - m], {"H": True}],
+            ["BSgate", [a, 0.3], [m, 1 - m], {"H": True}],
+            ["Xgate", [["mul", 0.5, a]], [m], {}]]
 
 
 @st.composite
 def segment_ops(draw, measured, allow_ff=True):
     """1..4 commands; may measure a mode (select) and may use an earlier measured value"""
-    ops_ = draw(gen.op_list(N, ALPH, "fock", 1, 3, no_mz_dagger=True))
+    ops_ = draw(gen.op_list(N, ALPH, "fock", 1, 3))
     for o in ops_:
         if o[0] in ("Pgate", "CXgate", "CZgate", "Xgate", "Zgate"):
             o[1][0] = float(np.clip(o[1][0], -0.3, 0.3))
@@ -59,6 +150,16 @@ def segment_ops(draw, measured, allow_ff=True):
             if twin[0] in ("Pgate", "CXgate", "CZgate", "Xgate", "Zgate"):
                 twin[1][0] = float(np.clip(twin[1][0], -0.3, 0.3))
             ops_.insert(k + 1, twin)
+    if draw(st.integers(0, 3)) == 0:
+        # operations outside the shared gate alphabet: preparations that replace a mode, a preparation that some compilers
+        # decompose, an array-valued Decomposition
+        name = draw(st.sampled_from(ALPH2))
+        if name == "Interferometer":
+            _, U = draw(gen.unitary(2, kinds=["haar", "single_bs", "diag", "perm"]))
+            new = [name, [spec.enc_matrix(np.asarray(U, complex))], list(draw(st.permutations([0, 1]))), {}]
+        else:
+            new = [name, draw(gen.op_params(name, "fock")), [draw(st.integers(0, N - 1))], {}]
+        ops_.insert(draw(st.integers(0, len(ops_))), new)
     extra = draw(st.sampled_from(["none", "none", "measure", "feedforward", "free"]))
     if extra == "measure":
         m = draw(st.integers(0, N - 1))
@@ -66,26 +167,37 @@ def segment_ops(draw, measured, allow_ff=True):
     elif extra == "feedforward" and measured and allow_ff:
         src = draw(st.sampled_from(sorted(measured)))
         tgt = draw(st.integers(0, N - 1))
-        ops_.append(["Dgate", [["mul", 0.5, ["absmeas", src]], 0.3], [tgt], {}])
+        ops_.append(draw(st.sampled_from(ff_variants(["mul", 0.5, ["absmeas", src]], tgt))))
     elif extra == "free":
-        ops_.append(["Rgate", [["free", "a"]], [draw(st.integers(0, N - 1))], {}])
+        ops_.append(draw(st.sampled_from(free_variants(draw(st.integers(0, N - 1))))))
     return ops_
 
 
 def numeric_ops(ops_, values, bind):
     """substitute measured values / free parameters -> numeric specs for refsim"""
-    out = []
-    for o in ops_:
-        ps = []
-        for p in o[1]:
-            if isinstance(p, list) and p and p[0] == "mul":
-                ps.append(p[1] * abs(values[p[2][1]]))
-            elif isinstance(p, list) and p and p[0] == "free":
-                ps.append(bind[p[1]])
-            else:
-                ps.append(p)
-        out.append([o[0], ps, o[2], o[3] if len(o) > 3 else {}])
-    return out
+    return [[o[0], [_eval(p, values, bind) for p in o[1]], o[2], _flags(o)] for o in ops_]
+
+
+def subst_free(ops_, value):
+    """the segment as it was executed: the free parameter replaced by the value it was bound to in that call"""
+    return [[o[0], [_eval(p, {}, {"a": value}) if _has(p, "free") and not _has(p, "absmeas") else p for p in o[1]], o[2], _flags(o)] for o in ops_]
+
+
+@st.composite
+def run_opts(draw):
+    """options of one engine call: how follow-up programs are created, value bound to the free parameter, run options"""
+    o = {}
+    if draw(st.booleans()):
+        o["style"] = "fresh"
+    if draw(st.integers(0, 2)) == 0:
+        o["bind"] = draw(gen.fl(-1.0, 1.0))
+    m = draw(st.sampled_from([None, [1], None, [0], [], [0, 1]]))
+    if m is not None:
+        o["modes"] = m
+    s = draw(st.sampled_from([None, 2, None, 1]))
+    if s is not None:
+        o["shots"] = s
+    return o
 
 
 class World:
@@ -97,8 +209,10 @@ class World:
         self.bind = {"a": bind}
         self.labels = set()
         self.nontrivial = False
+        self.cutoff = 9          # cutoff the fock engine is expected to use (changed by reset with backend options)
         self.eng = {b: self._fresh_engine(b) for b in BACKENDS}
-        self.executed = []       # op specs (symbolic form) executed since the last reset, per segment
+        self.executed = []       # op specs executed since the last reset, per segment (free parameter replaced by its value in that call)
+        self.executed_src = []   # the same segments in symbolic form
         self.pending = []        # op specs of segments not yet run
         self.progs = {b: [] for b in BACKENDS}   # user Program objects run since the last reset
         self.prog_ops = {b: [] for b in BACKENDS}  # op specs each of them contains
@@ -106,6 +220,9 @@ class World:
         self.values = {}         # mode -> last post-selected outcome
         self.dead = set()
         self.ff_used = False
+        self.failing_done = False
+        self.binds_used = set()
+        self._tail = {}          # cache of the truncation guard per executed prefix
 
     def _fresh_engine(self, b):
         opts = {"cutoff_dim": 9} if b == "fock" else {}
@@ -116,14 +233,29 @@ class World:
 
     # ---- building ----------------------------------------------------------------------------
     def add_segment(self, ops_):
-        if any(isinstance(p, list) and p and p[0] == "mul" for o in ops_ for p in o[1]):
+        if seg_has(ops_, "absmeas"):
             self.ff_used = True
         for o in ops_:
             if o[0] == "MeasureHomodyne":
                 self.values[o[2][0]] = o[3]["select"]
         self.pending.append(ops_)
-        if any((o[3] if len(o) > 3 else {}).get("H") and o[0] in ("Xgate", "Zgate", "Pgate", "CXgate", "MZgate", "S2gate", "Fouriergate") for o in ops_):
-            self.labels.add("dagger_decomposed")
+        for b, names in UNSUPPORTED.items():
+            if any(o[0] in names for o in ops_):
+                self.dead.add(b)
+        for o in ops_:
+            if o[0] in ALPH2:
+                self.labels.add("op:" + o[0])
+            sym = [k for k, p in enumerate(o[1]) if isinstance(p, list)]
+            if _flags(o).get("H") and o[0] in DECOMPOSED:
+                self.labels.add("dagger_decomposed")
+            if o[0] == "MZgate" and (_flags(o).get("H") or o[1][0] == 0):
+                self.labels.add("mzgate_dagger_or_zero_phase")
+            if sym and _flags(o).get("H"):
+                self.labels.add("symbolic_dagger")
+            if sym and sym != [0]:
+                self.labels.add("symbolic_later_parameter")
+            if sym and o[0] in DECOMPOSED:
+                self.labels.add("symbolic_decomposed")
 
     def _build(self, b, ops_, prev):
         from strawberryfields import ops
@@ -132,16 +264,19 @@ class World:
         prog = sf.Program(N) if prev is None else sf.Program(prev)
         prog.params("a")  # every program declares the free parameter, so that one ``args`` dict fits a list of programs
         with prog.context as q:
+
+            def sym(p):
+                if p[0] == "free":
+                    return prog.params(p[1])
+                if p[0] == "absmeas":
+                    return sf.math.Abs(q[p[1]].par)
+                if p[0] == "mul":
+                    return p[1] * sym(p[2])
+                raise ValueError("unknown symbolic parameter %r" % (p,))
+
             for o in ops_:
-                ps = []
-                for p in o[1]:
-                    if isinstance(p, list) and p and p[0] == "mul":
-                        ps.append(p[1] * sf.math.Abs(q[p[2][1]].par))
-                    elif isinstance(p, list) and p and p[0] == "free":
-                        ps.append(prog.params(p[1]))
-                    else:
-                        ps.append(spec.dec_param(p))
-                flags = o[3] if len(o) > 3 else {}
+                ps = [sym(p) if isinstance(p, list) and p else spec.dec_param(p) for p in o[1]]
+                flags = _flags(o)
                 kw = {"select": flags["select"]} if "select" in flags else {}
                 op = ops.Fouriergate() if o[0] == "Fouriergate" else getattr(ops, o[0])(*ps, **kw)
                 if flags.get("H"):
@@ -164,69 +299,113 @@ class World:
                     vals[o[2][0]] = o[3]["select"]
         return ref
 
-    def compare(self, b, state, segments, what, last_prog=1):
-        """``last_prog``: number of trailing segments that were submitted as the last Program (concatenated run: all of them)"""
+    def compare(self, b, state, segments, what, last_prog=1, modes=None):
+        """``last_prog``: number of trailing segments that were submitted as the last Program (concatenated run: all of them);
+        ``modes``: the ``modes`` run option the state was requested with (None: all modes)"""
         ref = self.model_state(segments)
         if b == "fock":
-            from vf.props.c01 import tail_weight
-
             # truncation guard: every segment boundary of the reference must have negligible weight above the cutoff
-            if any(tail_weight(self.model_state(segments[:k]), 9) > 1e-5 for k in range(1, len(segments) + 1)):
+            def heavy(segs):
+                key = repr((segs, self.bind))
+                if key not in self._tail:
+                    self._tail[key] = tail_weight(self.model_state(segs), 9) > 1e-5
+                return self._tail[key]
+
+            if any(heavy(segments[:k]) for k in range(1, len(segments) + 1)):
                 self.dead.add("fock")
                 self.labels.add("fock_truncation_dominated")
                 return None
+            if getattr(state, "cutoff_dim", None) != self.cutoff:
+                return self.ctx.fail("engine.backend_options_not_used.fock", "%s: the fock engine was created / reset with cutoff_dim=%d, the returned state has cutoff_dim=%r"
+                                     % (what, self.cutoff, getattr(state, "cutoff_dim", None)))
         be = b
+        keep = list(range(N)) if modes is None else list(modes)
+        if state is None or state.num_modes != len(keep):
+            return self.ctx.fail("run.modes_option.%s" % b, "%s: run(modes=%r) returned %s" % (what, modes, "no state" if state is None else "a state of %d modes" % state.num_modes))
         mu, V, _ = sfrun.moments_of(state, be, 2.0)
+        rmu, rV = ref.reduced(keep)
         tol = (1e-6 if b != "fock" else 5e-3) * (1 + float(np.max(np.abs(ref.V))))
-        d = max(float(np.max(np.abs(mu - ref.mu))), float(np.max(np.abs(V - ref.V))))
+        d = max(float(np.max(np.abs(mu - rmu))), float(np.max(np.abs(V - rV))))
         if d > tol:
             if b == "bosonic" and len(segments) > 1:
-                last = self.model_state(segments, start=len(segments) - last_prog)
-                d2 = max(float(np.max(np.abs(mu - last.mu))), float(np.max(np.abs(V - last.V))))
-                if d2 <= tol:
-                    return self.ctx.fail("F10.bosonic_engine_restarts_per_program", "bosonic engine: state after %d segments equals the last Program run alone from vacuum" % len(segments))
+                # F10: the simulator restarts with every Program that has commands; a Program whose circuit is empty (everything
+                # merged away by optimize=True) restarts nothing, so the state is that of the last non-empty Program(s) from vacuum
+                for start in range(len(segments) - last_prog, 0, -1):
+                    lmu, lV = self.model_state(segments, start=start).reduced(keep)
+                    d2 = max(float(np.max(np.abs(mu - lmu))), float(np.max(np.abs(V - lV))))
+                    if d2 <= tol:
+                        return self.ctx.fail("F10.bosonic_engine_restarts_per_program", "bosonic engine: state after %d segments equals segments %d.. run alone from vacuum" % (len(segments), start))
             return self.ctx.fail("%s.%s" % (what, b), "%s: state differs from the reference of the concatenated segments by %.3g (%d segments)" % (what, d, len(segments)))
         return None
 
+    def _count_check(self, b):
+        if len(self.eng[b].run_progs) != len(self.progs[b]):
+            return self.ctx.fail("engine.run_progs_count.%s" % b, "engine.run_progs has %d entries after %d program runs" % (len(self.eng[b].run_progs), len(self.progs[b])))
+        return None
+
     # ---- engine calls ------------------------------------------------------------------------
-    def run_pending(self, mode):
-        """mode: 'list' | 'successive' | 'concat' | 'list_opt' (one list, compile_options={"optimize": True})"""
+    def run_pending(self, mode, opts=None):
+        """mode: 'list' | 'tuple' | 'successive' | 'concat' | 'list_opt' (one list, compile_options={"optimize": True});
+        opts: {"style": "fresh" (follow-up programs are new Program(n) objects instead of Program(predecessor)), "bind": value of the
+        free parameter in this call, "modes": run option, "shots": run option}"""
         if not self.pending:
             return None
+        opts = opts or {}
         segs = self.pending
         self.pending = []
         if len(self.executed) + len(segs) >= 2 and sum(1 for s in self.executed + segs if s) >= 2:
             self.nontrivial = True
         if len(segs) >= 2:
             self.labels.add("list_vs_successive")
-        if any(isinstance(p, list) and p and p[0] == "mul" for s in segs for o in s for p in o[1]):
+        if any(seg_has(s, "absmeas") for s in segs):
             self.labels.add("feedforward_across_segments")
+        bindv = self.bind["a"] if opts.get("bind") is None else opts["bind"]
+        if any(seg_has(s, "free") for s in segs):
+            self.binds_used.add(bindv)
+            if len(self.binds_used) > 1:
+                self.labels.add("rebind_between_calls")
+        fresh = opts.get("style") == "fresh"
+        kwargs = {}
+        if opts.get("modes") is not None:
+            kwargs["modes"] = list(opts["modes"])
+            self.labels.add("run_option_modes" if kwargs["modes"] else "run_option_modes_empty")
+        if opts.get("shots") is not None:
+            # several shots are refused for programs with post-selection or feed-forward
+            plain = not any(o[0] == "MeasureHomodyne" for s in segs for o in s) and not any(seg_has(s, "absmeas") for s in segs)
+            kwargs["shots"] = int(opts["shots"]) if plain else 1
+            self.labels.add("run_option_shots")
+        done = [subst_free(s, bindv) for s in segs]
         for b in BACKENDS:
             if b in self.dead:
                 continue
             self.labels.add("backend:" + b)
             try:
                 prev = self.progs[b][-1] if self.progs[b] else None
+                if fresh and prev is not None:
+                    self.labels.add("fresh_program_follows")
                 if mode == "concat":
                     flat = [o for s in segs for o in s]
-                    built = [self._build(b, flat, prev)]
+                    built = [self._build(b, flat, None if fresh else prev)]
                 else:
                     built = []
                     for s in segs:
-                        built.append(self._build(b, s, prev))
+                        built.append(self._build(b, s, None if fresh else prev))
                         prev = built[-1]
                 snaps = [spec.snapshot(p) for p in built]
                 np.random.seed(7)
-                args = {"a": self.bind["a"]}
+                args = {"a": bindv}
                 if mode == "successive":
                     res = None
                     for p in built:
-                        res = self.eng[b].run(p, args=args)
+                        res = self.eng[b].run(p, args=args, **kwargs)
                 elif mode == "list_opt":
                     self.labels.add("run_with_optimize")
-                    res = self.eng[b].run(built if len(built) > 1 else built[0], args=args, compile_options={"optimize": True})
+                    res = self.eng[b].run(built if len(built) > 1 else built[0], args=args, compile_options={"optimize": True}, **kwargs)
+                elif mode == "tuple":
+                    self.labels.add("tuple_of_programs")
+                    res = self.eng[b].run(tuple(built), args=args, **kwargs)
                 else:
-                    res = self.eng[b].run(built if len(built) > 1 else built[0], args=args)
+                    res = self.eng[b].run(built if len(built) > 1 else built[0], args=args, **kwargs)
             except Violation:
                 raise
             except Exception as exc:  # pylint: disable=broad-except
@@ -240,23 +419,81 @@ class World:
                 d = spec.snapshot_diff(sn, spec.snapshot(p))
                 if d:
                     return self.ctx.fail("run.mutated_program.%s" % b, "running changed the user's program: " + d)
-            r = self.compare(b, res.state, self.executed + segs, "compositional.%s" % mode, last_prog=len(segs) if mode == "concat" else 1)
+            if kwargs.get("modes") == []:
+                if res.state is not None:
+                    return self.ctx.fail("run.modes_option.%s" % b, "run(modes=[]) returned a state object")
+            else:
+                r = self.compare(b, res.state, self.executed + done, "compositional.%s" % mode, last_prog=len(segs) if mode == "concat" else 1, modes=kwargs.get("modes"))
+                if r is not None:
+                    return r
+            r = self._count_check(b)
             if r is not None:
                 return r
-            if len(self.eng[b].run_progs) != len(self.progs[b]):
-                return self.ctx.fail("engine.run_progs_count.%s" % b, "engine.run_progs has %d entries after %d program runs" % (len(self.eng[b].run_progs), len(self.progs[b])))
-        self.executed += segs
+        self.executed += done
+        self.executed_src += segs
         return None
 
-    def reset(self):
+    def repeat(self, how, bind=None):
+        """submit the Program object that was run last once more to the SAME engine: as the next call ('successive') or twice in
+        one list ('pair').  A program whose register is unchanged can follow itself (Program.can_follow)."""
+        live = [b for b in BACKENDS if b not in self.dead and self.progs[b]]
+        if not self.executed or not live:
+            return None
+        seg = self.prog_ops[live[0]][-1]
+        if seg_has(seg, "absmeas"):
+            return None  # F7
+        times = 2 if how == "pair" else 1
+        bindv = self.bind["a"] if bind is None else bind
+        if seg_has(seg, "free"):
+            self.binds_used.add(bindv)
+            if len(self.binds_used) > 1:
+                self.labels.add("rebind_between_calls")
+        done = [subst_free(seg, bindv)] * times
+        self.labels.add("repeat_in_one_list" if how == "pair" else "repeat_next_call")
+        self.nontrivial = True
+        for b in live:
+            p = self.progs[b][-1]
+            sn = spec.snapshot(p)
+            try:
+                np.random.seed(7)
+                res = self.eng[b].run([p, p] if how == "pair" else p, args={"a": bindv})
+            except Exception as exc:  # pylint: disable=broad-except
+                r = self._crash(b, exc, "repeat_" + how)
+                if r is not None:
+                    return r
+                continue
+            self.progs[b] += [p] * times
+            self.prog_ops[b] += [seg] * times
+            d = spec.snapshot_diff(sn, spec.snapshot(p))
+            if d:
+                return self.ctx.fail("run.mutated_program.%s" % b, "running the same program again changed it: " + d)
+            r = self.compare(b, res.state, self.executed + done, "repeat_same_object.%s" % how)
+            if r is not None:
+                return r
+            r = self._count_check(b)
+            if r is not None:
+                return r
+        self.executed += done
+        self.executed_src += [seg] * times
+        return None
+
+    def reset(self, opts=None):
+        opts = opts or {}
         self.pending = []
+        self.snaps = {b: [] for b in BACKENDS}
         for b in BACKENDS:
             if b in self.dead:
                 continue
             if not self.eng[b].run_progs:
                 continue  # reset() is only documented for engines that have run something (a never-used local engine has no circuit yet)
+            had_values = any(rr.val is not None for p in self.progs[b] for rr in p.reg_refs.values())
             try:
-                self.eng[b].reset()
+                if b == "fock" and opts.get("cutoff_dim"):
+                    self.labels.add("reset_with_backend_options")
+                    self.eng[b].reset({"cutoff_dim": int(opts["cutoff_dim"])})
+                    self.cutoff = int(opts["cutoff_dim"])
+                else:
+                    self.eng[b].reset()
             except Exception as exc:  # pylint: disable=broad-except
                 r = self._crash(b, exc, "reset")
                 if r is not None:
@@ -264,26 +501,132 @@ class World:
                 continue
             if self.eng[b].run_progs:
                 return self.ctx.fail("reset.run_progs_not_empty.%s" % b, "run_progs holds %d programs after reset()" % len(self.eng[b].run_progs))
+            # "All registers of previously run Programs are cleared of measured values" (the compiled copies in run_progs share their
+            # RegRefs with the user's programs)
+            if had_values:
+                self.labels.add("reset_clears_measured_values")
+            for k, p in enumerate(self.progs[b]):
+                left = [rr.ind for rr in p.reg_refs.values() if rr.val is not None]
+                if left:
+                    return self.ctx.fail("reset.measured_values_not_cleared.%s" % b, "after reset() program #%d run on this engine still holds measured values of modes %r" % (k, left))
+            self.snaps[b] = list(zip(self.progs[b], self.prog_ops[b]))  # the programs run before this reset (see reset_rerun)
             self.progs[b] = []
             self.prog_ops[b] = []
         self.executed = []
+        self.executed_src = []
         self.values = {}
         self.labels.add("reset_then_run")
         return None
 
-    def rerun_last(self):
-        """run the first executed user Program object again on a fresh engine: same state as the model of that segment alone"""
+    def reset_rerun(self, k=0, bind=None, opts=None):
+        """reset(), then run a Program object that was run BEFORE the reset on the same engine: like a fresh engine"""
+        if not self.executed:
+            return None
+        r = self.reset(opts)
+        if r is not None:
+            return r
+        live = [b for b in BACKENDS if b not in self.dead and self.snaps[b] and not self.eng[b].run_progs]
+        if not live:
+            return None
+        n = min(len(self.snaps[b]) for b in live)
+        seg = self.snaps[live[0]][k % n][1]
+        if seg_has(seg, "absmeas"):
+            return None
+        bindv = self.bind["a"] if bind is None else bind
+        done = [subst_free(seg, bindv)]
+        self.labels.add("old_object_after_reset")
+        self.nontrivial = True
+        for o in seg:
+            if o[0] == "MeasureHomodyne":
+                self.values[o[2][0]] = o[3]["select"]
+        for b in live:
+            p = self.snaps[b][k % n][0]
+            sn = spec.snapshot(p)
+            try:
+                np.random.seed(7)
+                res = self.eng[b].run(p, args={"a": bindv})
+            except Exception as exc:  # pylint: disable=broad-except
+                r = self._crash(b, exc, "run_after_reset")
+                if r is not None:
+                    return r
+                continue
+            self.progs[b] = [p]
+            self.prog_ops[b] = [seg]
+            d = spec.snapshot_diff(sn, spec.snapshot(p))
+            if d:
+                return self.ctx.fail("run.mutated_program.%s" % b, "running the program again after reset() changed it: " + d)
+            r = self.compare(b, res.state, done, "reset.not_like_fresh_engine")
+            if r is not None:
+                return r
+            r = self._count_check(b)
+            if r is not None:
+                return r
+        self.executed = done
+        self.executed_src = [seg]
+        return None
+
+    def refused(self, kind):
+        """a run the engine refuses before executing anything ('mismatch': a 3-mode program cannot follow a 2-mode history;
+        'shots_select': post-selection with shots=2) leaves the program and the engine as they were; the calls after it must
+        compose as if it had not been made"""
+        from strawberryfields import ops
+
+        sf = self.sf
+        for b in BACKENDS:
+            if b in self.dead:
+                continue
+            eng = self.eng[b]
+            if kind == "mismatch":
+                if not eng.run_progs:
+                    continue  # on an unused engine the program is simply a valid first program
+                p = sf.Program(N + 1)
+                with p.context as q:
+                    ops.Sgate(0.1) | q[N]
+                kw = {}
+            else:
+                p = sf.Program(self.progs[b][-1]) if self.progs[b] else sf.Program(N)
+                with p.context as q:
+                    ops.Sgate(0.1) | q[0]
+                    ops.MeasureHomodyne(0.0, select=0.1) | q[0]
+                kw = {"shots": 2}
+            sn = spec.snapshot(p)
+            before = list(eng.run_progs)
+            try:
+                eng.run(p, **kw)
+                self.dead.add(b)  # accepted: what the engine holds now is not specified
+                self.labels.add("refusal_expected_but_accepted")
+                continue
+            except RuntimeError:  # RuntimeError("Register mismatch"), NotImplementedError
+                pass
+            except Exception as exc:  # pylint: disable=broad-except
+                r = self._crash(b, exc, "refused_" + kind)
+                if r is not None:
+                    return r
+                continue
+            self.labels.add("refused_run")
+            d = spec.snapshot_diff(sn, spec.snapshot(p))
+            if d:
+                return self.ctx.fail("run.refused_run_mutated_program", "a refused run (%s) left the user's program changed: %s" % (kind, d))
+            if len(eng.run_progs) != len(before) or any(x is not y for x, y in zip(eng.run_progs, before)):
+                return self.ctx.fail("engine.run_progs_count.%s" % b, "a refused run (%s) changed engine.run_progs (%d -> %d entries)" % (kind, len(before), len(eng.run_progs)))
+        return None
+
+    def rerun_last(self, k=0):
+        """run the k-th executed user Program object again on a fresh engine: same state as the model of that segment alone"""
         if not self.executed:
             return None
         for b in BACKENDS:
             if b in self.dead or not self.progs[b]:
                 continue
-            seg0 = self.prog_ops[b][0]
-            if any(isinstance(p, list) and p and p[0] == "mul" for o in seg0 for p in o[1]):
+            i = k % len(self.progs[b])
+            seg0 = self.prog_ops[b][i]
+            if seg_has(seg0, "absmeas"):
                 continue
             self.labels.add("rerun_same_object")
+            if i:
+                self.labels.add("rerun_later_object")
             self.nontrivial = True
-            p = self.progs[b][0]
+            p = self.progs[b][i]
             sn = spec.snapshot(p)
             try:
                 np.random.seed(7)
@@ -293,7 +636,11 @@ class World:
                 if r is not None:
                     return r
                 continue
-            r = self.compare(b, res.state, [seg0], "rerun_same_object")
+            cut, self.cutoff = self.cutoff, 9
+            try:
+                r = self.compare(b, res.state, [seg0], "rerun_same_object")
+            finally:
+                self.cutoff = cut
             if r is not None:
                 return r
             d = spec.snapshot_diff(sn, spec.snapshot(p))
@@ -301,14 +648,14 @@ class World:
                 return self.ctx.fail("run.mutated_program.%s" % b, "re-running changed the user's program: " + d)
         return None
 
-    def compile_check(self, compiler, optimize=False, shots=None):
-        """compile (optionally with optimize=True, or Program.optimize() for compiler 'optimize') a freshly built copy of the first
+    def compile_check(self, compiler, optimize=False, shots=None, k=0):
+        """compile (optionally with optimize=True, or Program.optimize() for compiler 'optimize') a freshly built copy of the k-th
         executed segment: source untouched, result is another object, and running the compiled program gives the same state; the
         source, run afterwards, still gives the same state"""
         if not self.executed:
             return None
-        seg0 = self.executed[0]
-        if any(isinstance(p, list) and p and p[0] == "mul" for o in seg0 for p in o[1]) and compiler == "gaussian_unitary":
+        seg0 = self.executed_src[k % len(self.executed_src)]
+        if seg_has(seg0, "absmeas") and (compiler == "gaussian_unitary" or k % len(self.executed_src)):
             return None
         from strawberryfields.program_utils import CircuitError
 
@@ -364,6 +711,7 @@ class World:
         """a run that raises (complex displacement amplitude with .H is rejected by the backend) must leave the program untouched"""
         from strawberryfields import ops
 
+        self.failing_done = True
         sf = self.sf
         p = sf.Program(N)
         with p.context as q:
@@ -389,26 +737,42 @@ class World:
         return self.ctx.fail("crash.%s.%s.%s@%s" % (b, where, type(exc).__name__, loc), "%s: %s" % (type(exc).__name__, str(exc)[:200]))
 
 
+def apply_action(w, a):
+    """one recorded action of a history -> World call (missing fields of old replay files take their defaults)"""
+    if a[0] == "segment":
+        w.add_segment(a[1])
+        return None
+    if a[0] == "run":
+        return w.run_pending(a[1], a[2] if len(a) > 2 else None)
+    if a[0] == "reset":
+        return w.reset(a[1] if len(a) > 1 else None)
+    if a[0] == "reset_rerun":
+        return w.reset_rerun(a[1], a[2], a[3] if len(a) > 3 else None)
+    if a[0] == "repeat":
+        return w.repeat(a[1], a[2] if len(a) > 2 else None)
+    if a[0] == "refused":
+        return w.refused(a[1])
+    if a[0] == "rerun":
+        return w.rerun_last(a[1] if len(a) > 1 else 0)
+    if a[0] == "compile":
+        return w.compile_check(a[1], bool(a[2]) if len(a) > 2 else False, a[3] if len(a) > 3 else None, a[4] if len(a) > 4 else 0)
+    if a[0] == "failing_run":
+        return w.failing_run()
+    raise ValueError("unknown action %r" % (a,))
+
+
 def check_history(ctx, case):
     w = World(ctx, case["bind"])
     r = None
     for a in case["history"]:
-        if a[0] == "segment":
-            w.add_segment(a[1])
-        elif a[0] == "run":
-            r = w.run_pending(a[1])
-        elif a[0] == "reset":
-            r = w.reset()
-        elif a[0] == "rerun":
-            r = w.rerun_last()
-        elif a[0] == "compile":
-            r = w.compile_check(a[1], bool(a[2]) if len(a) > 2 else False, a[3] if len(a) > 3 else None)
-        elif a[0] == "failing_run":
-            r = w.failing_run()
+        r = apply_action(w, a)
     if w.pending:
         r = w.run_pending("list")
     ctx.note(case, nontrivial=w.nontrivial, labels=sorted(w.labels))
     return r
+
+
+RUN_MODES = ["list", "successive", "concat", "list_opt", "tuple"]
 
 
 def make_machine(ctx):
@@ -418,6 +782,16 @@ def make_machine(ctx):
             self.case = None
             self.world = None
 
+        def do(self, *action):
+            action = list(action)
+            self.case["history"].append(action)
+            apply_action(self.world, action)
+
+        def new_segment(self, data):
+            # F7 (open): MeasuredParameter symbols are cached by name, so two live programs that use the measured value of the
+            # same mode share one symbol bound to the RegRef of the program built last; at most one feed-forward segment per history
+            self.do("segment", data.draw(segment_ops(self.world.measured_modes(), allow_ff=not self.world.ff_used)))
+
         @initialize(bind=gen.fl(-1.0, 1.0))
         def init(self, bind):
             self.case = {"bind": bind, "history": []}
@@ -426,52 +800,66 @@ def make_machine(ctx):
 
         @rule(data=st.data())
         def segment(self, data):
-            # F7 (open): MeasuredParameter symbols are cached by name, so two live programs that use the measured value of the
-            # same mode share one symbol bound to the RegRef of the program built last; at most one feed-forward segment per history
-            ops_ = data.draw(segment_ops(self.world.measured_modes(), allow_ff=not self.world.ff_used))
-            self.case["history"].append(["segment", ops_])
-            self.world.add_segment(ops_)
+            self.new_segment(data)
 
         @precondition(lambda self: self.world is not None and self.world.pending)
-        @rule(mode=st.sampled_from(["list", "successive", "concat", "list_opt"]))
-        def run(self, mode):
-            self.case["history"].append(["run", mode])
-            self.world.run_pending(mode)
+        @rule(mode=st.sampled_from(RUN_MODES), opts=run_opts())
+        def run(self, mode, opts):
+            self.do("run", mode, opts)
 
         @precondition(lambda self: self.world is not None and len(self.world.pending) >= 2)
-        @rule(mode=st.sampled_from(["list", "successive", "concat", "list_opt"]))
-        def run_several(self, mode):
-            self.case["history"].append(["run", mode])
-            self.world.run_pending(mode)
+        @rule(mode=st.sampled_from(RUN_MODES), opts=run_opts())
+        def run_several(self, mode, opts):
+            self.do("run", mode, opts)
+
+        @rule(data=st.data(), n=st.integers(1, 2), mode=st.sampled_from(RUN_MODES), opts=run_opts())
+        def segments_and_run(self, data, n, mode, opts):
+            # one engine call per step: histories of several calls on the same engine do not depend on two rules being enabled
+            for _ in range(n):
+                self.new_segment(data)
+            self.do("run", mode, opts)
 
         @precondition(lambda self: self.world is not None and self.world.executed)
-        @rule()
-        def reset(self):
-            self.case["history"].append(["reset"])
-            self.world.reset()
+        @rule(cutoff=st.sampled_from([None, 10]))
+        def reset(self, cutoff):
+            self.do("reset", {} if cutoff is None else {"cutoff_dim": cutoff})
 
         @precondition(lambda self: self.world is not None and self.world.executed)
-        @rule()
-        def rerun(self):
-            self.case["history"].append(["rerun"])
-            self.world.rerun_last()
+        @rule(k=st.integers(0, 3), bind=st.one_of(st.none(), gen.fl(-1.0, 1.0)), cutoff=st.sampled_from([None, 10]))
+        def reset_rerun(self, k, bind, cutoff):
+            self.do("reset_rerun", k, bind, {} if cutoff is None else {"cutoff_dim": cutoff})
 
         @precondition(lambda self: self.world is not None and self.world.executed)
-        @rule(compiler=st.sampled_from(["gaussian", "fock", "bosonic", "gaussian_unitary", "optimize"]), optimize=st.booleans(), shots=st.sampled_from([None, None, 7]))
-        def compile(self, compiler, optimize, shots):
-            self.case["history"].append(["compile", compiler, optimize, shots])
-            self.world.compile_check(compiler, optimize, shots)
+        @rule(how=st.sampled_from(["successive", "pair"]), bind=st.one_of(st.none(), gen.fl(-1.0, 1.0)))
+        def repeat(self, how, bind):
+            self.do("repeat", how, bind)
 
+        @precondition(lambda self: self.world is not None and self.world.executed)
+        @rule(k=st.integers(0, 3))
+        def rerun(self, k):
+            self.do("rerun", k)
+
+        @precondition(lambda self: self.world is not None and self.world.executed)
+        @rule(compiler=st.sampled_from(["gaussian", "fock", "bosonic", "gaussian_unitary", "optimize"]), optimize=st.booleans(), shots=st.sampled_from([None, None, 7]),
+              k=st.integers(0, 2))
+        def compile(self, compiler, optimize, shots, k):
+            self.do("compile", compiler, optimize, shots, k)
+
+        @precondition(lambda self: self.world is not None and not self.world.failing_done)
         @rule()
         def failing_run(self):
-            self.case["history"].append(["failing_run"])
-            self.world.failing_run()
+            self.do("failing_run")
+
+        @rule(data=st.data(), kind=st.sampled_from(["mismatch", "shots_select"]), mode=st.sampled_from(RUN_MODES), opts=run_opts())
+        def refused_then_run(self, data, kind, mode, opts):
+            self.do("refused", kind)
+            self.new_segment(data)
+            self.do("run", mode, opts)
 
         def teardown(self):
             if self.world is not None:
                 if self.world.pending:
-                    self.case["history"].append(["run", "list"])
-                    self.world.run_pending("list")
+                    self.do("run", "list")
                 ctx.note(self.case, nontrivial=self.world.nontrivial, labels=sorted(self.world.labels))
 
     return RunMachine
@@ -479,13 +867,17 @@ def make_machine(ctx):
 
 SUBS = [
     Sub("run_machine", check=check_history, machine=make_machine, examples={"quick": 110, "thorough": 600}, steps={"quick": 10, "thorough": 14},
-        shards={"quick": 5, "thorough": 16}, rule="rule-based machine over segment / run (list, successive, concatenated) / reset / rerun / compile / failing run on three engines"),
+        shards={"quick": 5, "thorough": 16}, rule="rule-based machine over segment / run (list, tuple, successive, concatenated; derived or fresh follow-up programs; run options) / repeat same object / "
+             "reset (+ old object, backend options) / rerun / compile / failing run / refused run on three engines"),
 ]
 
 MANIFEST = {
     "technique": "Hypothesis stateful (rule-based) machine; metamorphic relations between call patterns with a refsim model of the concatenated history; deep snapshots for immutability",
     "text": ("Generated histories of engine calls are executed on a gaussian, a fock and a bosonic engine; after every run the state must equal "
-             "refsim applied to all segments since the last reset whichever way they were submitted (one list, successive calls, one concatenated "
-             "program, with feed-forward of post-selected outcomes across segments), reset must restore a fresh engine, and deep snapshots show "
-             "that compile, run, re-run and failing runs leave the user's programs untouched."),
+             "refsim applied to all segments since the last reset whichever way they were submitted (one list or tuple, successive calls, one "
+             "concatenated program; follow-up programs derived from their predecessor or created fresh; the same Program object submitted "
+             "again; with run options modes / shots and changing values of the free parameter; with feed-forward of post-selected outcomes "
+             "across segments through plain, daggered and decomposed gates), refused calls must change nothing, reset must restore a fresh "
+             "engine (also with new backend options) and clear measured values, and deep snapshots show that compile, run, re-run, refused "
+             "and failing runs leave the user's programs (including array-valued operations) untouched."),
 }
